@@ -27,7 +27,7 @@ KindLine(k) ==
       [] k = "comment" -> <<"SP", "HASH", "CMT">>
       [] k = "nohosts" -> <<"A6">>
       [] k = "badaddr" -> <<"Abad", "SP", "N">>
-      [] k = "badname" -> <<"A4", "SP", "N", "TAB", "Nbad", "SP", "N">>
+      [] k = "badname" -> <<"A4", "SP", "N", "TAB", "SP", "Nbad", "SP", "N">>
       [] k = "okcr"    -> <<"A4", "TAB", "N", "CR">>
 AllKinds == {"ok1", "ok2", "empty", "comment", "nohosts", "badaddr", "badname", "okcr"}
 
